@@ -411,7 +411,8 @@ def group_mean_frame(gb):
         cols[nm] = A.new_arr((G,), fn, "float" if dt != "complex" else "complex")
         order.append(nm)
     df = new_df(cols, order, G)
-    cur().heap[df.sid].meta["groupby"] = {"keys": kr, "n": n, "K": K, "G": G, "key_name": kname}
+    cur().heap[df.sid].meta["groupby"] = {"keys": kr, "n": n, "K": K, "G": G, "key_name": kname,
+                                          "values": {nm: gb.src[nm].reader() for nm in gb.names if nm != kname}}
     return df
 
 
